@@ -481,8 +481,17 @@ impl ErasedNode for Node {
             }
             Kind::Constant(_) => self.recomputed_at.get().is_never(),
 
-            Kind::MapRef(_)
-            | Kind::ArrayFold(_)
+            Kind::MapRef(mapref) => {
+                // A map_ref over another map_ref that is itself stale: the inner one only gets
+                // its `changed_at` bumped when it is recomputed, and it will not call our
+                // `child_changed` then (see recompute_one). Being reconnected after the input
+                // changed, we would otherwise not notice. Treat it as our own staleness.
+                self.recomputed_at.get().is_never()
+                    || self.is_stale_with_respect_to_a_child()
+                    || (matches!(mapref.input.kind(), Some(Kind::MapRef(_)))
+                        && mapref.input.is_stale())
+            }
+            Kind::ArrayFold(_)
             | Kind::Map(_)
             | Kind::MapWithOld(_)
             | Kind::Map2(_)
